@@ -29,7 +29,8 @@ def available():
 
 
 def build():
-    env = dict(ENV, RUSTFLAGS="-C instrument-coverage")
+    # proc-macros / build scripts are instrumented too and write a profile where they run: keep that out of /repo
+    env = dict(ENV, RUSTFLAGS="-C instrument-coverage", LLVM_PROFILE_FILE=os.path.join(COVDIR, "build-%p.profraw"))
     r = subprocess.run(["cargo", "+nightly", "build", "--offline", "--quiet", "--release", "--target-dir", COVDIR],
                        cwd=HARNESS, env=env, capture_output=True, text=True)
     if r.returncode != 0:
